@@ -330,12 +330,12 @@ def finding_matches(finding, data, failure):
     m = finding.get('match', {})
     if 'kind' in m and m['kind'] != failure[0]:
         return False
-    if 'case' in m:
-        return m['case'] == data
-    if 'case_regex' in m:
-        return re.search(m['case_regex'], json.dumps(data, sort_keys=True)) is not None
-    if 'detail_regex' in m:
-        return re.search(m['detail_regex'], failure[1]) is not None
+    if 'case' in m and m['case'] == data:
+        return True
+    if 'case_regex' in m and re.search(m['case_regex'], json.dumps(data, sort_keys=True)) is not None:
+        return True
+    if 'detail_regex' in m and re.search(m['detail_regex'], failure[1], re.S) is not None:
+        return True
     return False
 
 
